@@ -115,8 +115,68 @@ def cmp_prior_aware(res_obs, q, rtol):
     return compare_q(res_obs, q, rtol=rtol)
 
 
+def check_combined_userchol(ctx, case):
+    """a combined non-linear fit with a user-supplied inverse covariance `[L, keys]`: the matrix is labelled by `keys`; a key list
+    in another than the library's (alphabetical) order is either refused or honoured - the returned parameters must be a stationary
+    point of the chi-square built from the matrix AS LABELLED"""
+    import autograd
+    from scipy.linalg import solve_triangular
+    probs = []
+    nprng = np.random.default_rng(case['seed'])
+    truth = [2.0, 0.4, 0.9]
+    fa = lambda a, x: a[0] * anp.exp(-a[1] * x)  # noqa: E731
+    fb = lambda a, x: a[2] * anp.exp(-a[1] * x)  # noqa: E731
+    na, nb = case['na'], case['nb']
+    xs = {'a': np.linspace(0.3, 3.0, na), 'b': np.linspace(0.5, 2.5, nb)}
+    fs = {'a': fa, 'b': fb}
+    common = nprng.normal(size=80)
+    ys = {}
+    for k in ('a', 'b'):
+        yv = fs[k](truth, xs[k])
+        ys[k] = [pe.Obs([yv[i] + 0.01 * (1 + i % 3) * abs(yv[i]) * (0.6 * common + nprng.normal(size=80))], ['E|r1']) for i in range(len(xs[k]))]
+        [o.gamma_method() for o in ys[k]]
+    listed = case['listed']                    # order in which the user labels the blocks of his matrix
+    pts = [o for k in listed for o in ys[k]]
+    n = len(pts)
+    B_ = nprng.normal(size=(n, n))
+    C_ = B_ @ B_.T + n * np.eye(n)
+    dd = np.sqrt(np.diag(C_))
+    corr = C_ / np.outer(dd, dd)
+    dy = np.array([o.dvalue for o in pts]) * nprng.uniform(0.7, 1.5, size=n)
+    L_ = solve_triangular(np.linalg.cholesky(corr), np.diag(1 / dy), lower=True)
+    order = ['a', 'b'] if case['dict_order'] else ['b', 'a']
+    ctx.count('combined-userchol:' + ''.join(listed))
+    with warnings.catch_warnings(), quiet():
+        warnings.simplefilter('ignore')
+        try:
+            res = pe.least_squares({k: xs[k] for k in order}, {k: ys[k] for k in order}, {k: fs[k] for k in order}, silent=True, correlated_fit=True,
+                                   inv_chol_cov_matrix=[L_, list(listed)], initial_guess=[t * 1.03 for t in truth])
+        except Exception as e:
+            if listed != ['a', 'b']:
+                ctx.count('combined-userchol:refused')
+                return probs                      # refusing a key list in another order is fine
+            return [('violation', 'fit-exception', '%s: %s' % (type(e).__name__, str(e)[:160]))]
+    yv = np.concatenate([[o.value for o in ys[k]] for k in listed])
+
+    def chi(p):
+        f_ = anp.concatenate([fs[k](p, xs[k]) for k in listed])
+        r = anp.dot(L_, yv - f_)
+        return anp.sum(r ** 2)
+    phat = np.array([p.value for p in res.fit_parameters])
+    g = autograd.grad(chi)(phat)
+    H = autograd.hessian(chi)(phat)
+    step = np.linalg.solve(H, g)
+    [p.gamma_method() for p in res.fit_parameters]
+    perr = np.array([max(p.dvalue, 1e-12) for p in res.fit_parameters])
+    if np.max(np.abs(step) / perr) > 1e-3:
+        probs.append(('violation', 'not-stationary', 'combined fit with the user matrix labelled %r: Newton step %r in units of the errors' % (listed, (step / perr).tolist())))
+    return probs
+
+
 def check_case(ctx, case):
     probs = []
+    if case.get('kind') == 'combined_userchol':
+        return check_combined_userchol(ctx, case)
     with warnings.catch_warnings(), quiet():
         warnings.simplefilter('ignore')
         x, ys, af, nf, truth = make(case)
@@ -357,6 +417,9 @@ def check_case(ctx, case):
 
 def gen_case(ctx):
     rng = ctx.rng
+    if rng.random() < 0.12:
+        return {'kind': 'combined_userchol', 'seed': rng.getrandbits(28), 'na': rng.randint(4, 7), 'nb': rng.randint(3, 6), 'listed': rng.choice([['a', 'b'], ['b', 'a'], ['b', 'a']]),
+                'dict_order': rng.random() < 0.5, 'model': 'exp', 'correlated': True, 'num_grad': False, 'prior': False}
     model = rng.choice(['exp', 'cosh', 'rat', 'exp2', 'exp', 'cosh'])
     kind = rng.choice(['ls', 'ls', 'tls'])
     case = {'seed': rng.getrandbits(28), 'model': model, 'kind': kind, 'npts': rng.randint(7, 11), 'nens': rng.choice([1, 3, 12]),
